@@ -553,6 +553,13 @@ def judge(ctx, binary, cases, label):
             outs = out_tokens(io)
             spec_lines.append("spec cap=%d ops=%s outs=%s" % (cap, ",".join(ops), ",".join(outs)))
     rc, spec, err = ctx.run_model("model_c16", spec_lines)
+    if rc != 0 or len(spec) != len(spec_lines):
+        ctx.broken("model-driver", "model_c16 (spec checker)", "spec checker run failed: rc=%s, %d answers for %d questions %s"
+                   % (rc, len(spec), len(spec_lines), err[-300:]))
+        return
+    # an answered (non-aborted) history must carry exactly one output per operation
+    spec = [("spec-reject@length" if (not io.startswith("abort:") and len(out_tokens(io)) != len(ops)) else so)
+            for (cap, ops), io, so in zip(cases, impl, spec)]
     for (cap, ops), line, io, mo, so in zip(cases, lines, impl, model, spec):
         nontrivial = ("x" in ops) and any(o.startswith("i:") for o in ops)
         ctx.count(line, nontrivial)
